@@ -47,6 +47,7 @@ def cfgOf (j : Json) : R Cfg := do
     triucheck := getBoolD j "triucheck" true,
     dupcheck := getBoolD j "dupcheck" true,
     ensureSorted := getBoolD j "ensure_sorted" false,
+    infoOk := getBoolD j "info_ok" true,
     countLo := (match getInt j "count_lo" with | .ok v => v | .error _ => d.countLo),
     countHi := (match getInt j "count_hi" with | .ok v => v | .error _ => d.countHi) }
 
@@ -86,6 +87,7 @@ def jFault : Option Fault → Json
   | some (.err e) => Json.str e.name
   | some .os => Json.str "OSError"
   | some .iter => Json.str "iter"
+  | some .type => Json.str "TypeError"
 
 /-- number of steps executed before the run stopped -/
 def stepsDone (cfg : Cfg) : List PStep → Sys → Nat
@@ -94,6 +96,71 @@ def stepsDone (cfg : Cfg) : List PStep → Sys → Nat
     match s.fails cfg y with
     | some _ => 0
     | none => 1 + stepsDone cfg ss (s.eff cfg y)
+
+structure Stage where
+  cfg : Cfg
+  evs : List Ev
+  kind : String
+  inputsOk : Bool
+  optsOk : Bool
+
+def stageOf (a : Json) : R Stage := do
+  let cfg ← fld a "cfg" >>= cfgOf
+  let evs ← fld a "events" >>= listOf evOf
+  let kind ← getStr a "pipeline"
+  return { cfg := cfg, evs := evs, kind := kind, inputsOk := getBoolD a "inputs_ok" true,
+           optsOk := getBoolD a "opts_ok" true }
+
+/-- one creation call run on the file state `fs0`: the report, the file state after it, did it raise -/
+def runStage (st : Stage) (fs0 : FS) : Json × FS × Bool :=
+  let cfg := st.cfg
+  let evs := st.evs
+  let tcfg : Nat → Cfg := fun i => { cfg with target := [toString i], mode := .a }
+  let chunksOf : List Ev → List Chunk := fun l => l.filterMap fun e => match e with | .chunk c => some c | .raise => none
+  -- the final pass of unordered ingestion merges the (validated, hence as given) chunks: one aggregated stream
+  let finalEvs : List Ev := match st.kind with
+    | "unordered" => [.chunk (aggAll (chunksOf evs))]
+    | _ => evs
+  let pre : List PStep := match st.kind with
+    | "unordered" => if st.optsOk then unorderedPre tcfg 0 evs else unorderedPreBadOpts tcfg evs
+    | "producer" => producerPre st.inputsOk ++ optsPre st.optsOk
+    | _ => optsPre st.optsOk
+  let steps := pipeline pre cfg finalEvs
+  let npre := pre.length
+  let y0 : Sys := ⟨fs0, none⟩
+  let (y, fault) := runP cfg steps y0
+  let k := stepsDone cfg steps y0
+  let fs := y.dest
+  let was := isCooler fs0 cfg.target
+  let now := isCooler fs cfg.target
+  let listed := listCoolers fs
+  let paths : List Path := match fs0 with | none => [] | some f => (f.map (·.1)).eraseDups
+  let groups := paths.map fun p =>
+    (p, footprint cfg.target p, decide (lookupFS fs p = lookupFS fs0 p), isCooler fs p)
+  -- what the theorems predict (partial_not_cooler / pipeline_*, frame_*, complete_is_cooler,
+  -- pipeline_dest_untouched, bad_metadata_never_completes, bad_opts_dest_untouched): a disagreement
+  -- contradicts a proved statement
+  let l0 :=
+    (fault.isNone || was || (!now && !listed.contains cfg.target)) &&
+    (cfg.mode == .w || groups.all fun (_, fp, same, _) => fp || same) &&
+    (fault.isSome || now || fs0.any (fun f => (lookup f []).isNone)) &&
+    (fault.isNone || k ≥ npre || decide (fs = fs0)) &&
+    (cfg.infoOk || fault.isSome) &&
+    (st.optsOk || (fault.isSome && decide (fs = fs0)))
+  (Json.mkObj [
+    ("fault", jFault fault),
+    ("steps_total", jNat steps.length), ("steps_done", jNat k), ("steps_pre", jNat npre),
+    ("dest_exists", Json.bool fs.isSome),
+    ("was_cooler", Json.bool was),
+    ("is_cooler", Json.bool now),
+    ("listed", jList jPath listed),
+    ("groups", jList (fun (x : Path × Bool × Bool × Bool) => Json.mkObj [
+      ("path", jPath x.1), ("footprint", Json.bool x.2.1), ("unchanged", Json.bool x.2.2.1),
+      ("is_cooler", Json.bool x.2.2.2)]) groups),
+    ("target", jOpt jColl (lookupFS fs cfg.target)),
+    ("root_other", jOpt (fun (c : Coll) => jOther c.other) (lookupFS fs [])),
+    ("dest_untouched", Json.bool (decide (fs = fs0))),
+    ("l0_ok", Json.bool l0)], fs, fault.isSome)
 
 def handle : Handler := fun op a =>
   match op with
@@ -120,52 +187,23 @@ def handle : Handler := fun op a =>
         ("flags", jList (fun (x : Bool × Bool × Bool × Bool) =>
           Json.arr #[Json.bool x.1, Json.bool x.2.1, Json.bool x.2.2.1, Json.bool x.2.2.2]) bools4)]
   | "C13.run" => some do
-      let cfg ← fld a "cfg" >>= cfgOf
+      let st ← stageOf a
       let fs0 ← fld a "fs" >>= fsOf
-      let evs ← fld a "events" >>= listOf evOf
-      let kind ← getStr a "pipeline"
-      let inputsOk := getBoolD a "inputs_ok" true
-      let tcfg : Nat → Cfg := fun i => { cfg with target := [toString i], mode := .a }
-      let chunksOf : List Ev → List Chunk := fun l => l.filterMap fun e => match e with | .chunk c => some c | .raise => none
-      let steps : List PStep := match kind with
-        | "unordered" =>
-          -- the final pass merges the (validated, hence as given) chunks: one aggregated stream
-          pipeline (unorderedPre tcfg 0 evs) cfg [.chunk (aggAll (chunksOf evs))]
-        | "producer" => pipeline (producerPre inputsOk) cfg evs
-        | _ => pipeline [] cfg evs
-      let npre := steps.length - (createSteps cfg (match kind with
-        | "unordered" => [.chunk (aggAll (chunksOf evs))] | _ => evs)).length
-      let y0 : Sys := ⟨fs0, none⟩
-      let (y, fault) := runP cfg steps y0
-      let k := stepsDone cfg steps y0
-      let fs := y.dest
-      let was := isCooler fs0 cfg.target
-      let now := isCooler fs cfg.target
-      let listed := listCoolers fs
-      let paths : List Path := match fs0 with | none => [] | some f => (f.map (·.1)).eraseDups
-      let groups := paths.map fun p =>
-        (p, footprint cfg.target p, decide (lookupFS fs p = lookupFS fs0 p), isCooler fs p)
-      -- what the theorems predict (partial_not_cooler / pipeline_*, frame_*, complete_is_cooler,
-      -- pipeline_dest_untouched): a disagreement contradicts a proved statement
-      let l0 :=
-        (fault.isNone || was || (!now && !listed.contains cfg.target)) &&
-        (cfg.mode == .w || groups.all fun (_, fp, same, _) => fp || same) &&
-        (fault.isSome || now || fs0.any (fun f => (lookup f []).isNone)) &&
-        (fault.isNone || k ≥ npre || decide (fs = fs0))
-      return Json.mkObj [
-        ("fault", jFault fault),
-        ("steps_total", jNat steps.length), ("steps_done", jNat k), ("steps_pre", jNat npre),
-        ("dest_exists", Json.bool fs.isSome),
-        ("was_cooler", Json.bool was),
-        ("is_cooler", Json.bool now),
-        ("listed", jList jPath listed),
-        ("groups", jList (fun (x : Path × Bool × Bool × Bool) => Json.mkObj [
-          ("path", jPath x.1), ("footprint", Json.bool x.2.1), ("unchanged", Json.bool x.2.2.1),
-          ("is_cooler", Json.bool x.2.2.2)]) groups),
-        ("target", jOpt jColl (lookupFS fs cfg.target)),
-        ("root_other", jOpt (fun (c : Coll) => jOther c.other) (lookupFS fs [])),
-        ("dest_untouched", Json.bool (decide (fs = fs0))),
-        ("l0_ok", Json.bool l0)]
+      return (runStage st fs0).1
+  | "C13.run_seq" => some do
+      -- several creations into ONE destination file, one after the other (zoomify levels, the cells of a
+      -- scool): the run stops at the first stage that raises; its report is relative to the file as the
+      -- completed earlier stages left it
+      let stages ← fld a "stages" >>= listOf stageOf
+      let fs0 ← fld a "fs" >>= fsOf
+      let rec go (i : Nat) (fs : FS) : List Stage → Json
+        | [] => Json.mkObj [("stage", Json.null), ("fault", Json.null), ("l0_ok", Json.bool true),
+                            ("listed", jList jPath (listCoolers fs)), ("dest_untouched", Json.bool true),
+                            ("was_cooler", Json.bool false), ("is_cooler", Json.bool false)]
+        | st :: rest =>
+          let (j, fs', failed) := runStage st fs
+          if failed || rest.isEmpty then j.setObjVal! "stage" (jNat i) else go (i + 1) fs' rest
+      return go 0 fs0 stages
   | _ => none
 
 end Cooler.Drv.C13
